@@ -97,6 +97,16 @@ def gen(repo):
         if not re.search(pat, dr):
             raise TranslateError("decodeNameFromRdata: expected `%s`" % pat)
 
+    # the bounds test of the direct-pointer branch: `pointer < messageSize` (margin 0, after the repair of FC19f) or, before it,
+    # `pointer < messageSize && pointer + 1 < messageSize` (margin 1: a pointer to a root label in the LAST byte was refused)
+    sz = r"static_cast<\s*std::size_t\s*>\s*\(\s*pointer\s*\)"
+    if re.search(r"if\s*\(\s*" + sz + r"\s*<\s*messageSize\s*&&\s*\(\s*" + sz + r"\s*\+\s*1\s*\)\s*<\s*messageSize\s*\)\s*(?://[^\n]*\n\s*)?\{\s*decodeName", dr):
+        rd_margin = 1
+    elif re.search(r"if\s*\(\s*" + sz + r"\s*<\s*messageSize\s*\)\s*\{\s*decodeName", dr):
+        rd_margin = 0
+    else:
+        raise TranslateError("decodeNameFromRdata: unrecognised bounds test of the direct compression pointer")
+
     # --- checkBounds
     cb = cxxscan.function_body(msg, "checkBounds")
     if not re.search(r"if\s*\(\s*offset\s*\+\s*needed\s*>\s*total\s*\)", cb):
@@ -154,6 +164,22 @@ def gen(repo):
                 r"name\.empty\(\)\s*\|\|\s*name\s*==\s*\"\.\"", r"if\s*\(\s*label\.empty\(\)\s*\)\s*continue"):
         if not re.search(pat, en):
             raise TranslateError("encodeName: expected `%s`" % pat)
+    # where the 255-octet test sits: after the root label has been appended (the root octet counts: RFC 1035 2.3.4) or inside
+    # the label loop, before it (the root octet is not counted: a 256-octet name is emitted)
+    lw = re.search(r"while\s*\(\s*std::getline\s*\(\s*iss\s*,\s*label\s*,\s*'\.'\s*\)\s*\)\s*\{", en)
+    if not lw:
+        raise TranslateError("encodeName: label loop not found")
+    lend = cxxscan.match_brace(en, lw.end() - 1)
+    roots = [m.start() for m in re.finditer(r"encoded\.push_back\s*\(\s*0\s*\)\s*;", en) if m.start() > lend]
+    checks = [m.start() for m in re.finditer(r"encoded\.size\(\)\s*>\s*constants::DNS_MAX_NAME_SIZE", en)]
+    if len(roots) != 1 or len(checks) != 1:
+        raise TranslateError("encodeName: expected one root-label append behind the loop and one length test (found %d, %d)" % (len(roots), len(checks)))
+    if checks[0] > roots[0]:
+        enc_counts_root = True
+    elif lw.end() < checks[0] < lend:
+        enc_counts_root = False
+    else:
+        raise TranslateError("encodeName: the length test is neither behind the root-label append nor inside the label loop")
     bq = cxxscan.function_body(msg, "buildQuery", signature_contains="recursionDesired")
     rd_flag = cxxscan.find_int(r"recursionDesired\s*\?\s*(\w+)\s*:\s*0x0000", bq, "RD flag literal")
 
@@ -205,7 +231,6 @@ def gen(repo):
     if any(not (lk.end() <= mm.start() < scope_end) for mm in re.finditer(r"\b_cache\b", pt)):
         raise TranslateError("ExpiringCache purge thread: `_cache` is used outside the scope of the lock over _mutex")
     locked.append("purge")
-    ec_default = cxxscan.find_int(r"ExpiringCache\(\)\s*:\s*_ttl\(std::chrono::seconds\((\w+)\)\)", exp, "ExpiringCache default ttl")
 
     # --- DnsCache
     dflt = cxxscan.find_int(r"DnsCache\(\)\s*:\s*defaultTtlSeconds_\((\w+)\)", cache, "DnsCache default TTL")
@@ -239,6 +264,66 @@ def gen(repo):
     else:
         raise TranslateError("DnsCacheKey::fromQuestion: unrecognised lower-casing function `%s`" % fn[:120])
 
+    # DnsCache::clear -> initializeCache swaps the `cache_` unique_ptr: under a lock or not?
+    ic = cxxscan.function_body(cache, "initializeCache")
+    if not re.search(r"cache_\s*=\s*std::make_unique", ic):
+        raise TranslateError("DnsCache::initializeCache: `cache_ = std::make_unique…` not found")
+    clr = cxxscan.function_body(cache, "clear", signature_contains="resetHistoricalStats")
+    if not re.search(r"initializeCache\s*\(\s*\)\s*;", clr):
+        raise TranslateError("DnsCache::clear: initializeCache() not found")
+    clear_locked = bool(re.search(r"std::(?:lock_guard|unique_lock|scoped_lock)", clr + ic))
+    # key equality: which members the cache key and the pending-query key compare
+    def eq_fields(src, cls, what):
+        m = re.search(r"bool\s+operator==\s*\(\s*const\s+%s\s*&\s*other\s*\)\s*const\s*\{\s*return\s+([^;]+);" % cls, src)
+        if not m:
+            raise TranslateError("%s::operator== not found" % what)
+        parts = [re.sub(r"\s+", "", x) for x in m.group(1).split("&&")]
+        out = []
+        for x in parts:
+            mm = re.fullmatch(r"(\w+)==other\.(\w+)", x)
+            if not mm or mm.group(1) != mm.group(2):
+                raise TranslateError("%s::operator==: unrecognised conjunct `%s`" % (what, x))
+            out.append(mm.group(1))
+        return out
+    cache_key_fields = eq_fields(typ, "DnsCacheKey", "DnsCacheKey")
+    query_key_fields = eq_fields(tsp, "QueryKey", "DnsTransport::QueryKey")
+    qk = tsp[tsp.index("struct QueryKey"):]
+    qk = qk[:qk.index("struct PendingQuery")]
+    lt = re.search(r"bool\s+operator<\s*\(\s*const\s+QueryKey\s*&\s*other\s*\)\s*const\s*\{(.*?)\}\s*bool\s+operator==", qk, re.S)
+    if not lt or not re.fullmatch(r"\s*if\s*\(\s*queryId\s*!=\s*other\.queryId\s*\)\s*return\s+queryId\s*<\s*other\.queryId\s*;\s*if\s*\(\s*server\s*!=\s*other\.server\s*\)\s*"
+                                 r"return\s+server\s*<\s*other\.server\s*;\s*return\s+port\s*<\s*other\.port\s*;\s*", lt.group(1)):
+        raise TranslateError("DnsTransport::QueryKey::operator<: not the lexicographic order over (queryId, server, port)")
+
+    # --- DnsTransport::handleTcpData: the reassembly skeleton, in source order
+    ht = cxxscan.function_body(tsp, "handleTcpData")
+    tcp_steps = [
+        ("buffer-of-session", r"auto\s*&\s*buffer\s*=\s*tcpBuffers_\s*\[\s*sessionId\s*\]\s*;"),
+        ("growth-check-close", r"if\s*\(\s*buffer\.size\(\)\s*\+\s*data\.size\(\)\s*>\s*config_\.maxTcpBufferSize\s*\)\s*\{[^{}]*buffer\.clear\(\)\s*;\s*tcpTransport_->close\s*\(\s*sessionId\s*\)\s*;\s*return\s*;\s*\}"),
+        ("append", r"buffer\.insert\s*\(\s*buffer\.end\(\)\s*,\s*data\.data\(\)\s*,\s*data\.data\(\)\s*\+\s*data\.size\(\)\s*\)\s*;"),
+        ("loop-while-2", r"while\s*\(\s*buffer\.size\(\)\s*>=\s*2\s*\)"),
+        ("length-be16", r"std::uint16_t\s+messageLength\s*=\s*\(\s*buffer\[0\]\s*<<\s*8\s*\)\s*\|\s*buffer\[1\]\s*;"),
+        ("zero-or-max-close", r"if\s*\(\s*messageLength\s*==\s*0\s*\|\|\s*messageLength\s*>\s*MAX_DNS_MESSAGE_SIZE\s*\)\s*\{[^{}]*buffer\.clear\(\)\s*;\s*tcpTransport_->close\s*\(\s*sessionId\s*\)\s*;\s*return\s*;\s*\}"),
+        ("cap-close", r"if\s*\(\s*messageLength\s*>\s*maxSafeSize\s*\|\|\s*messageLength\s*>\s*config_\.maxTcpBufferSize\s*\)\s*\{.*?buffer\.clear\(\)\s*;\s*tcpTransport_->close\s*\(\s*sessionId\s*\)\s*;\s*return\s*;\s*\}"),
+        ("incomplete-break", r"if\s*\(\s*buffer\.size\(\)\s*<\s*2\s*\+\s*static_cast<\s*std::size_t\s*>\s*\(\s*messageLength\s*\)\s*\)\s*\{[^{}]*break\s*;\s*\}"),
+        ("session-lookup", r"auto\s+it\s*=\s*sessionToServer_\.find\s*\(\s*sessionId\s*\)\s*;"),
+        ("unknown-session-pop-continue", r"for\s*\(\s*std::size_t\s+i\s*=\s*0\s*;\s*i\s*<\s*2\s*\+\s*static_cast<\s*std::size_t\s*>\s*\(\s*messageLength\s*\)\s*;\s*\+\+i\s*\)\s*\{\s*buffer\.pop_front\(\)\s*;\s*\}\s*continue\s*;"),
+        ("copy-exact", r"std::vector<\s*std::uint8_t\s*>\s+messageData\s*\(\s*buffer\.begin\(\)\s*\+\s*2\s*,\s*buffer\.begin\(\)\s*\+\s*2\s*\+\s*messageLength\s*\)\s*;"),
+        ("process-exact", r"processResponse\s*\(\s*messageData\.data\(\)\s*,\s*messageLength\s*,\s*DnsTransportMode::TCP\s*,\s*server\s*,\s*port\s*\)\s*;"),
+        ("pop-exact", r"for\s*\(\s*std::size_t\s+i\s*=\s*0\s*;\s*i\s*<\s*2\s*\+\s*static_cast<\s*std::size_t\s*>\s*\(\s*messageLength\s*\)\s*;\s*\+\+i\s*\)\s*\{\s*buffer\.pop_front\(\)\s*;\s*\}"),
+    ]
+    pos = 0
+    for tag, pat in tcp_steps:
+        m = re.compile(pat, re.S).search(ht, pos)
+        if not m:
+            raise TranslateError("handleTcpData: step `%s` not found (in this order)" % tag)
+        pos = m.end()
+    tcp_max = cxxscan.find_int(r"static\s+const\s+std::uint16_t\s+MAX_DNS_MESSAGE_SIZE\s*=\s*(\w+)\s*;", ht, "handleTcpData: MAX_DNS_MESSAGE_SIZE")
+    tcp_buf = cxxscan.find_int(r"std::size_t\s+maxTcpBufferSize\s*\{\s*(\w+)\s*\}\s*;", typ, "DnsConfig::maxTcpBufferSize default")
+    hu = cxxscan.function_body(tsp, "handleUdpData")
+    if not re.search(r"sessionToServer_\.find\s*\(\s*sessionId\s*\)", hu) or not re.search(
+            r"processResponse\s*\(\s*data\.data\(\)\s*,\s*data\.size\(\)\s*,\s*DnsTransportMode::UDP\s*,\s*server\s*,\s*port\s*\)\s*;", hu):
+        raise TranslateError("handleUdpData: session lookup / processResponse(data.data(), data.size(), UDP, server, port) not found")
+
     # --- DnsTransport::processResponse: everything of the parser is caught; the failed query is keyed by the first two bytes
     pr = cxxscan.function_body(tsp, "processResponse")
     m = re.search(r"\btry\s*\{", pr)
@@ -256,6 +341,15 @@ def gen(repo):
         raise TranslateError("processResponse: completeQuery(key, error) for the extracted id not found")
     if not re.search(r"QueryKey\s+key\s*\(\s*result\.header\.id\s*,\s*sourceServer\s*,\s*sourcePort\s*\)", pr[m.end():tend]):
         raise TranslateError("processResponse: the success path does not key the query by result.header.id")
+
+    # the truncation branch: mode UDP + TC -> in transport mode Both a pending query that has not fallen back is marked, re-sent over TCP and NOT completed
+    if not re.search(r"if\s*\(\s*mode\s*==\s*DnsTransportMode::UDP\s*&&\s*result\.isTruncated\(\)\s*\)", pr[m.end():tend]) or not re.search(
+            r"if\s*\(\s*config_\.transportMode\s*==\s*DnsTransportMode::Both\s*\)\s*\{\s*std::lock_guard<\s*std::mutex\s*>\s+lock\s*\(\s*queriesMutex_\s*\)\s*;\s*"
+            r"auto\s+it\s*=\s*pendingQueries_\.find\s*\(\s*key\s*\)\s*;\s*if\s*\(\s*it\s*!=\s*pendingQueries_\.end\(\)\s*&&\s*!it->second->tcpFallback\s*\)\s*\{"
+            r"[^{}]*it->second->tcpFallback\s*=\s*true\s*;\s*sendTcpQuery\s*\(\s*it->second\s*\)\s*;\s*return\s*;", pr[m.end():tend], re.S):
+        raise TranslateError("processResponse: the truncation -> TCP fallback branch (mark, sendTcpQuery, return without completing) is not recognised")
+    if not re.search(r"bool\s+isTruncated\(\)\s*const\s*\{\s*return\s+header\.tc\s*;\s*\}", typ):
+        raise TranslateError("DnsResult::isTruncated() is not `return header.tc;`")
 
     t = HEADER % ", ".join([MSG, TYP, CACHE, EXP, TRANSPORT])
     t += "namespace Iora.Gen.Dns\n"
@@ -282,10 +376,14 @@ def gen(repo):
         len_a, len_aaaa, min_srv, min_naptr, min_mx, min_soa, soa_tail)
     t += "/-- `decodeNameWithLoopDetection`: leaving the `while (offset < size)` loop without a terminator throws -/\n"
     t += "def unterminatedIsError : Bool := %s\n" % _lean_bool(unterminated_is_error)
+    t += "/-- `decodeNameFromRdata`, direct-pointer branch: the target must satisfy `pointer + margin < messageSize` (0 after the repair of FC19f; 1 before: a pointer to the root label in the last byte of the message was refused) -/\n"
+    t += "def rdataPointerMargin : Nat := %d\n" % rd_margin
+    t += "/-- `encodeName` tests `encoded.size() > DNS_MAX_NAME_SIZE` AFTER the root label has been appended (true) or inside the label loop, before it (false) -/\n"
+    t += "def encodeLimitCountsRoot : Bool := %s\n" % _lean_bool(enc_counts_root)
     t += "/-- `buildQuery`: flags word when recursion is desired -/\n"
     t += "def rdFlag : Nat := %d\n" % rd_flag
-    t += "/-- `DnsCache()` default TTL (s), `ExpiringCache()` default TTL (s) -/\n"
-    t += "def cacheDefaultTtl : Nat := %d\ndef expiringDefaultTtl : Nat := %d\n" % (dflt, ec_default)
+    t += "/-- `DnsCache()` default TTL (s) -/\n"
+    t += "def cacheDefaultTtl : Nat := %d\n" % dflt
     t += "/-- `ExpiringCache::get` serves iff `expiration > now` (strict) -/\n"
     t += "def getStrict : Bool := %s\n" % _lean_bool(get_strict)
     t += "/-- purge thread removes iff `expiration <= now` -/\n"
@@ -298,5 +396,13 @@ def gen(repo):
     t += "def zeroTtlNotCachedPut : Bool := %s\ndef zeroTtlNotCachedNeg : Bool := %s\n" % (_lean_bool(zero_put), _lean_bool(zero_neg))
     t += "/-- `processResponse`: a rejected message needs this many bytes for its query id `(data[0] << 8) | data[1]` to be extracted -/\n"
     t += "def respMinIdBytes : Nat := %d\n" % resp_min
+    t += "/-- `DnsCache::clear` -> `initializeCache` replaces the `cache_` unique_ptr inside a lock (true) or with no lock at all (false) -/\n"
+    t += "def clearSwapUnderLock : Bool := %s\n" % _lean_bool(clear_locked)
+    t += "/-- members compared by `DnsCacheKey::operator==` and by `DnsTransport::QueryKey::operator==` (its `operator<` is the lexicographic order over the same three) -/\n"
+    t += "def cacheKeyFields : List String := [%s]\n" % ", ".join('"%s"' % x for x in cache_key_fields)
+    t += "def queryKeyFields : List String := [%s]\n" % ", ".join('"%s"' % x for x in query_key_fields)
+    t += "/-- `handleTcpData`: the reassembly steps found in this source order; `MAX_DNS_MESSAGE_SIZE`; `DnsConfig::maxTcpBufferSize` default -/\n"
+    t += "def tcpSkeleton : List String := [%s]\n" % ", ".join('"%s"' % x for x, _ in tcp_steps)
+    t += "def tcpMaxMessage : Nat := %d\ndef tcpDefaultBuffer : Nat := %d\n" % (tcp_max, tcp_buf)
     t += "end Iora.Gen.Dns\n"
     return "IoraModel/Gen/Dns.lean", t
